@@ -931,6 +931,51 @@ class Generator:
         self.plan = [hide, al, rej]
         return {"op": "group_by", "t": a.id, "cols": [{"c": key}], "add": False}
 
+    def g_const_alias_selfjoin_scenario(self):
+        """a table gets a literal column, is re-rooted by a plain alias(), the copy is filtered and
+        joined back (left / full) onto the table: on the rows without a partner the copy's literal
+        column is null like the copy's other columns"""
+        m = self.m
+        rng = self.rng
+
+        def single(p):
+            return not p.m.grouping and p.m.rowid and all(p.m.name_of_tok(t) for t in p.m.rowid) and not (p.m.n_join or p.m.n_union or p.m.n_summarize or p.m.n_limit) and 2 <= len(p.m.visible) <= 12 and (p.nrows or 12) <= 40
+
+        a = self.pick_table(single)
+        if a is None:
+            return None
+        key = a.m.name_of_tok(a.m.rowid[0])
+        st = {"lit": f"t{self.cur_i}"}
+
+        def al(i):
+            if st["lit"] not in m.tables:
+                self.plan.clear()
+                return None
+            st["copy"] = f"t{i}"
+            return {"op": "alias", "t": st["lit"], "name": rng.choice([None, *ALIAS_NAMES]), "keep": False}
+
+        def flt(i):
+            p2 = m.tables.get(st.get("copy"))
+            if p2 is None:
+                self.plan.clear()
+                return None
+            pr = self.g_pred(p2)
+            if not pr:
+                return None
+            st["copy"] = f"t{i}"
+            return {"op": "filter", "t": p2.id, "preds": [pr]}
+
+        def do_join(i):
+            l2, r2 = m.tables.get(st["lit"]), m.tables.get(st.get("copy"))
+            if l2 is None or r2 is None or l2.m.tok_of_name(key) is None or r2.m.tok_of_name(key) is None:
+                self.plan.clear()
+                return None
+            m.note("const_alias_selfjoin_scenario")
+            return {"op": "join", "l": l2.id, "r": r2.id, "on": [{"p": "eq", "a": {"o": key}, "b": {"ro": key}}], "how": rng.choice(["left", "full"]), "selfjoin": True}
+
+        self.plan = [al, flt, do_join]
+        return {"op": "mutate", "t": a.id, "cols": [[self.fresh_name(), {"e": "lit", "v": rng.randrange(100, 999)}]]}
+
     def g_mutate_w(self):
         st = self.g_mutate(window=True)
         return st
@@ -1143,10 +1188,10 @@ class Generator:
         T = self.m.model.toks
         # grouping by a constant column is not generated: on SQL it is dropped from GROUP BY, so an
         # empty input gives one row instead of none (C04 territory, DESIGN.md 12.3)
-        vis = [t for t in pt.m.vis_toks() if T[t].kind != "const"]
+        vis = [t for t in pt.m.vis_toks() if T[t].kind != "const" or self.p.get("group_by_const", False)]
         if not vis:
             return None
-        pref = [t for t in vis if T[t].mod] or vis
+        pref = [t for t in vis if T[t].mod or T[t].kind == "const"] or vis
         toks = self.rng.sample(pref, min(len(pref), self.rng.choice([1, 1, 2])))
         if self.rng.random() < 0.15:
             toks = self.rng.sample(vis, 1)
